@@ -19,8 +19,7 @@ RULE = ("histories of 2-6 (thorough: up to 10) compilations with 2-3 specs over 
         "non-trivial = history in which two kernels sharing a subroutine get different specs; distinct = distinct histories.")
 TRUSTED = ["modelled, not verified: kirin's CallGraphPass / Method.similar (Model/Store.lean mirrors its copy-then-rewrite "
            "discipline), IR printer"]
-ASSUMPTIONS = ["a specialised kernel later used as a callee of another kernel keeps its own spec's constants by construction; "
-               "such histories are outside 'share subroutines' and are not generated"]
+ASSUMPTIONS = ["none beyond the generator's program shapes"]
 
 SLOTS = {}     # name -> ArchSpec, read by the generated sources
 
@@ -33,7 +32,7 @@ def specs():
         A = Grid.from_positions([0.0, 2.0, 10.0], [0.0, 10.0]).shift(dx, 0.0).scale(sc, 1.0)
         B = Grid.from_positions([20.0, 24.0], [1.0, 3.0]).shift(dx, 1.0)
         S = Grid.from_positions([-5.0, -4.0], [7.5]).shift(0.0, dx)
-        out.append(ArchSpec(layout=Layout({"A": A, "B": B}, {"A"}, {"A", "B"}, {"A"}, special_grid={"S": S}),
+        out.append(ArchSpec(layout=Layout({"A": A, "B": B}, {"A"}, {"A", "B"}, {"A"}, special_grid={"S": S, "B": B.shift(0.25, -1.0)}),
                             float_constants={"f0": ff, "fh": 0.5 * (k + 1), "f3": 3.0}, int_constants={"n0": nn, "n1": 1, "n2": 2 + k}))
     return out
 
@@ -103,8 +102,35 @@ def tkq(n: int):
 
 '''
 
+MAPSUB = '''@move
+def mapsubq(n: int):
+    return ilist.map(leafq, ilist.range(n))
+
+'''
+
+NESTED = '''@move{inner_dec}
+def innerq(n: int):
+    dq = schedule.device_fn(tkq, ilist.IList([0, 1, 2]), ilist.IList([0, 1]))
+    dq(n)
+    gate.local_rz(spec.get_float_constant(constant_id="fh"), spec.get_static_trap(zone_id="B"))
+    return n
+
+@move
+def outertailq(n: int):
+    gate.local_rz(spec.get_float_constant(constant_id="fh"), spec.get_static_trap(zone_id="A"))
+    return n
+
+@move{outer_dec}
+def outerq(n: int):
+    r = innerq(n)
+    gate.local_rz(spec.get_float_constant(constant_id="fh"), spec.get_static_trap(zone_id="A"))
+    return r
+
+'''
+
 LIB_CALL = '''    dq = schedule.device_fn(tkq, ilist.IList([0, 1, 2]), ilist.IList([0, 1]))
     dq(1)
+    mq = mapsubq(2)
     move_by_waypoints(ilist.IList([spec.get_static_trap(zone_id="A"), grid.shift(spec.get_static_trap(zone_id="A"), 1.0, 2.0)]), True, True)
 '''
 
@@ -114,6 +140,7 @@ def module_source(helpers, roots, order, assign):
     out = [L.HDR, "from bloqade.shuttle.stdlib.waypoints import move_by_waypoints\nfrom harness.props import c07 as _C07\n\n", TKQ]
     for f in helpers:
         out.append("\n".join(L.fn_source(f, 0, True)) + "\n\n")
+    out.append(MAPSUB)          # a shared subroutine that passes the spec-reading helper leafq around as a value
     for i in order:
         r = roots[i]
         dec = f"move(arch_spec=_C07.SLOTS['{assign[i]}'])" if assign[i] else "move"
@@ -126,6 +153,14 @@ def module_source(helpers, roots, order, assign):
     # matters here is that compiling them leaves the shared helper untouched
     for k, slot in enumerate(sorted({a for a in assign if a})):
         out.append(f"@move(arch_spec=_C07.SLOTS['{slot}'])\ndef mapk{k}(n: int):\n    return ilist.map(leafq, ilist.range(n))\n\n")
+    # a kernel specialised for one spec invoked by a kernel specialised for another spec (each keeps its own)
+    slots = [a for a in assign if a]
+    if len(set(slots)) >= 2:
+        x = slots[0]
+        y = next(a for a in slots if a != x)
+        out.append(NESTED.format(inner_dec=f"(arch_spec=_C07.SLOTS['{x}'])", outer_dec=f"(arch_spec=_C07.SLOTS['{y}'])"))
+    else:
+        out.append(NESTED.format(inner_dec="", outer_dec=""))
     return "".join(out)
 
 
@@ -199,6 +234,24 @@ def run(ctx):
                         ctx.fail(dict(case, root=f"root{i}", args=list(a)),
                                  f"root{i} compiled with {assign[i]} (compile order {list(order)}) does not behave as under its own spec: "
                                  f"got={got[:300]} want={want[:300]}")
+            # (3b) a kernel specialised for spec x invoked by a kernel specialised for spec y: the inner part behaves as under x,
+            #      the outer part as under y
+            slots = [a for a in assign if a]
+            if len(set(slots)) >= 2:
+                x = slots[0]
+                y = next(a for a in slots if a != x)
+                for n in (1, 2):
+                    ri = EV.run_with_events(ref_mod.innerq, SLOTS[x], (n,))
+                    ro = EV.run_with_events(ref_mod.outertailq, SLOTS[y], (n,))
+                    got = EV.run_with_events(mod.outerq, SLOTS[y], (n,), plain=True)
+                    ctx.count("nested_specialised_runs")
+                    if ri.error is None and ro.error is None:
+                        want = EV.canon_events(list(ri.events) + list(ro.events))
+                        gq = "err" if got.error is not None else EV.canon_events(got.events)
+                        if gq != want:
+                            ctx.fail(dict(case, kernel="outerq", inner_spec=x, outer_spec=y, args=[n]),
+                                     f"a kernel specialised for {x} invoked by a kernel specialised for {y} does not keep its own spec: "
+                                     f"got={gq[:300]} want={want[:300]}")
             # (4) specs unmodified
             for k, s in SLOTS.items():
                 if not (s == spec_copies[k]) or canon_spec(s) != spec_canon[k]:
